@@ -14,7 +14,8 @@ import time
 VERIF = os.path.dirname(os.path.dirname(os.path.abspath(__file__)))
 REPO = os.environ.get('RBP_REPO', '/repo')
 BUILD = os.path.join(VERIF, '.build')
-TARGET = os.path.join(BUILD, 'hooks')
+# one cargo target directory per source tree: two trees sharing one would leave whichever binary was linked last
+TARGET = os.path.join(BUILD, 'hooks' if REPO == '/repo' else 'hooks-' + __import__('hashlib').md5(REPO.encode()).hexdigest()[:8])
 BIN = os.path.join(TARGET, 'debug', 'rusty-blockparser')
 WORKROOT = os.path.join(VERIF, '.work')
 SPEC = os.path.join(VERIF, 'spec')
